@@ -1,3 +1,4 @@
+use crate::compound::CompoundObject;
 use crate::engine::Engine;
 use crate::goal::{AnyGoal, Goal};
 use crate::lterm::{LTerm, LTermInner};
@@ -7,6 +8,7 @@ use crate::user::User;
 #[cfg(feature = "clpfd")]
 use crate::operator::onceo;
 
+use crate::operator::conj::Conj;
 use crate::state::map_sum::map_sum;
 
 /// Enforces the finite domain constraints by expanding the domains into sequences of numbers,
@@ -39,6 +41,24 @@ fn force_ans<U: User, E: Engine<U>>(x: LTerm<U, E>) -> Goal<U, E> {
                     force_ans(head),
                     force_ans(tail),
                 ]);
+                g.solve(solver, state)
+            },
+            (LTermInner::<U, E>::Compound(object), _) => {
+                // Label the finite domain variables in the fields of a compound term
+                fn field_terms<U: User, E: Engine<U>>(
+                    object: &dyn CompoundObject<U, E>,
+                    terms: &mut Vec<LTerm<U, E>>,
+                ) {
+                    for child in object.children() {
+                        match child.as_term() {
+                            Some(term) => terms.push(term.clone()),
+                            None => field_terms(child, terms),
+                        }
+                    }
+                }
+                let mut terms = vec![];
+                field_terms(object.as_ref(), &mut terms);
+                let g: Goal<U, E> = Conj::from_vec(terms.into_iter().map(force_ans).collect());
                 g.solve(solver, state)
             },
             (_, _) => solver.start(&Goal::Succeed, state),
